@@ -309,6 +309,12 @@ func (e *Engine) runC12(ch *kernel.Chooser, st *kernel.Stats) kernel.RunResult {
 	plainPB := pb
 	seen := map[string]bool{}
 	lateSwitch := ch.Bool(1, 5)
+	// the driver: ParseProgram (usual), ParseProgram called twice (the second answer counts too), or a host that
+	// loops over ParseStatement()/NextToken() itself and reads Errors()
+	driver := ch.Weighted(6, 1, 1)
+	if driver == 2 {
+		st.Inc("probe.host_driven_statement_loop")
+	}
 	if lateSwitch {
 		st.Inc("probe.builder_switched_to_tolerant_between_build_and_parse")
 	}
@@ -398,10 +404,24 @@ func (e *Engine) runC12(ch *kernel.Chooser, st *kernel.Stats) kernel.RunResult {
 			sw := pb
 			xutil.AfterBuild = func() { sw.WithTolerantMode(true) }
 		}
+		xutil.HostDriven = driver == 2
 		o := xutil.Parse(pb, f.Text)
+		xutil.HostDriven = false
 		xutil.AfterBuild = nil
 		if lateSwitch {
 			pb.WithTolerantMode(false)
+		}
+		if driver == 1 && o.Panic == nil && o.Parser != nil {
+			// asked again, the parser must not take its report back
+			func() {
+				defer func() { _ = recover() }()
+				_, err2 := o.Parser.ParseProgram()
+				st.Inc("probe.ParseProgram_called_twice")
+				if o.Err != nil && err2 == nil {
+					o.Err = nil
+				}
+				o.Errors = o.Parser.Errors()
+			}()
 		}
 		// what the previous parser reports must still satisfy the property now that a later parser has run
 		if prevParser != nil {
